@@ -5,6 +5,7 @@ import (
 	"go/ast"
 	"go/token"
 	"go/types"
+	"math"
 	"sort"
 	"strconv"
 	"strings"
@@ -38,6 +39,7 @@ func checkC14(c *Ctx, r *Report) {
 	checkOnlyPainter(c, r)
 	checkMarginNonNegative(c, r)
 	checkQRMarginHint(c, r)
+	checkOneDMarginHint(c, r)
 	checkForwardOrder(c, r, 0) // no minimum: wrappers that share no parameter names with their callee are not instances
 	checkEncodeHintsUsed(c, r, 4)
 	checkWriterStateless(c, r)
@@ -588,7 +590,7 @@ func checkWriterStateless(c *Ctx, r *Report) {
 
 // M-MARGIN: a negative quiet zone never reaches the size arithmetic
 func checkMarginNonNegative(c *Ctx, r *Report) {
-	r.Rule("M-MARGIN", "the quiet zone the QR and 1-D renderers compute their sizes with is not negative: in renderResult / onedWriter_renderResult every use of the margin parameter is dominated by a test that excludes negative values (error exit), or every caller passes a value so tested - with a negative margin, symbol + margin is smaller than the symbol and the returned matrix clips it", 2)
+	r.Rule("M-MARGIN", "the quiet zone the QR and 1-D renderers compute their sizes with is not negative: in renderResult / onedWriter_renderResult every use of the margin parameter is dominated by a test that excludes negative values (error exit), or every caller passes a value so tested - with a negative margin, symbol + margin is smaller than the symbol and the returned matrix clips it; and both renderers, folded with margins for which symbol + margin (1-D) or symbol + twice the margin (QR) wraps round, return an error before any matrix is built (margins that are merely enormous ask for an enormous matrix: not decided)", 4)
 	for _, t := range []struct {
 		rel, fn string
 		param   int
@@ -651,11 +653,75 @@ func checkMarginNonNegative(c *Ctx, r *Report) {
 		}
 		r.Check(bad == "", "M-MARGIN", key, c.pos(f.Pos()), bad)
 	}
+	// a margin so large that symbol + margin wraps round is refused as well: folded with the matrix replaced by a recorder
+	for _, t := range []struct {
+		rel, fn string
+		qr      bool
+	}{{"qrcode", "renderResult", true}, {"oned", "onedWriter_renderResult", false}} {
+		fd, p := c.funcDeclOf(t.rel, t.fn)
+		key := t.rel + "." + t.fn + "/wrap-round"
+		if fd == nil {
+			r.AnchorLost("M-MARGIN", key, "function not found")
+			continue
+		}
+		r.Analysed(key)
+		bad := ""
+		margins := []int64{math.MaxInt64, math.MaxInt64 - 20, math.MaxInt64/2 + 1, 1 << 62, math.MaxInt64 / 2}
+		if !t.qr {
+			margins = []int64{math.MaxInt64, math.MaxInt64 - 1, math.MaxInt64 - 2} // three modules + margin wraps round
+		}
+		for _, m := range margins {
+			built := false
+			h := &rpf{unroll: 1000, maxSteps: 100000, effectCalls: true}
+			h.callHook = func(rr *rpf, call *ast.CallExpr, callee types.Object) (*Val, bool) {
+				if fn, ok := callee.(*types.Func); ok {
+					switch fn.Name() {
+					case "GetMatrix":
+						return &Val{K: VStruct, Ptr: true, Fields: map[string]*Val{}}, true
+					case "GetWidth", "GetHeight":
+						return vint(21), true
+					case "Get":
+						return vint(1), true
+					case "SetRegion":
+						return &Val{K: VNil}, true
+					}
+				}
+				return errCtorHook(rr, call, callee)
+			}
+			h.multiHook = func(call *ast.CallExpr, callee types.Object) ([]*Val, bool) {
+				if isFuncNamed(callee, "", "NewBitMatrix") {
+					built = true
+					return []*Val{{K: VStruct, Ptr: true, Fields: map[string]*Val{}}, {K: VNil}}, true
+				}
+				return nil, false
+			}
+			var args []*Val
+			if t.qr {
+				args = []*Val{{K: VStruct, Ptr: true, Fields: map[string]*Val{}}, vint(100), vint(100), vint(m)}
+			} else {
+				args = []*Val{{K: VList, L: []*Val{vbool(true), vbool(false), vbool(true)}}, vint(100), vint(1), vint(m)}
+			}
+			res, err := c.rpfCall(fd, p, args, h)
+			if err != nil {
+				if strings.Contains(err.Error(), "division by zero") {
+					bad = fmt.Sprintf("a margin of %d modules: %s - a run-time panic", m, err.Error())
+				} else {
+					bad = "?" + err.Error()
+				}
+				break
+			}
+			if len(res) != 2 || res[1].K == VNil || built {
+				bad = fmt.Sprintf("a margin of %d modules is not refused: symbol + margin wraps round, a matrix of the requested 100 pixels is built and returned without an error - blank or with the symbol clipped", m)
+				break
+			}
+		}
+		reportFold(r, c, "M-MARGIN", key, fd.Pos(), bad)
+	}
 }
 
 // R-MARGIN (QR hint handling): the quiet zone that reaches the renderer
 func checkQRMarginHint(c *Ctx, r *Report) {
-	r.Rule("R-MARGINHINT", "QRCodeWriter.Encode, folded with the symbol encoder and the renderer replaced by recorders, hands renderResult a quiet zone of 4 modules when no MARGIN hint is given and exactly the hinted value otherwise - for the values 0, 1, 2, 4, 7, 20 given as an int and as a decimal string (an explicit 0 is a quiet zone of 0 modules) - together with the requested width and height; each case alone and together with an ERROR_CORRECTION hint (the options do not shadow each other)", 1)
+	r.Rule("R-MARGINHINT", "QRCodeWriter.Encode, folded with the symbol encoder and the renderer replaced by recorders, hands renderResult a quiet zone of 4 modules when no MARGIN hint is given and exactly the hinted value otherwise - for the values 0, 1, 2, 4, 7, 20 given as an int and as a decimal string (an explicit 0 is a quiet zone of 0 modules) - together with the requested width and height; each case alone and together with an ERROR_CORRECTION hint (the options do not shadow each other); OneDimensionalCodeWriter.Encode, folded the same way, hands onedWriter_renderResult the writer's own default without a hint and otherwise exactly the hinted value - ints, decimal strings (a leading zero does not make them octal: \"010\" is ten, \"08\" is eight), an error for a string that is not a decimal number or a value of another type", 2)
 	fd, p := c.funcDeclOf("qrcode", "QRCodeWriter.Encode")
 	key := "qrcode.QRCodeWriter.Encode/margin"
 	if fd == nil {
@@ -976,4 +1042,132 @@ func checkOnlyPainter(c *Ctx, r *Report) {
 		}
 		r.Check(bad == "", "R-BLOCK", key, c.pos(fd.Pos()), bad)
 	}
+}
+
+// R-MARGINHINT for the 1-D writers: what OneDimensionalCodeWriter.Encode hands its renderer
+func checkOneDMarginHint(c *Ctx, r *Report) {
+	fd, p := c.funcDeclOf("oned", "OneDimensionalCodeWriter.Encode")
+	key := "oned.OneDimensionalCodeWriter.Encode/margin"
+	if fd == nil {
+		r.AnchorLost("R-MARGINHINT", key, "method not found")
+		return
+	}
+	r.Analysed(key)
+	mk, ok1 := constValIn(c, "", "EncodeHintType_MARGIN")
+	if !ok1 {
+		r.Undecided("R-MARGINHINT", key, c.pos(fd.Pos()), "EncodeHintType_MARGIN is not a constant")
+		return
+	}
+	type tc struct {
+		hint *Val
+		want int64 // -1: an error is due
+		desc string
+	}
+	cases := []tc{{nil, 13, "no hint (the writer's default, 13 in this fold)"}}
+	for _, m := range []int64{0, 1, 8, 9, 10, 17, 25} {
+		cases = append(cases, tc{vint(m), m, fmt.Sprintf("MARGIN %d", m)}, tc{vstr(fmt.Sprint(m)), m, fmt.Sprintf("MARGIN %q", fmt.Sprint(m))})
+	}
+	// decimal strings with a leading zero are decimal; what is not a decimal number is refused
+	cases = append(cases, tc{vstr("010"), 10, `MARGIN "010"`}, tc{vstr("08"), 8, `MARGIN "08"`}, tc{vstr("abc"), -1, `MARGIN "abc"`}, tc{vstr("0x10"), -1, `MARGIN "0x10"`}, tc{&Val{K: VFloat, F: 2.5}, -1, "MARGIN 2.5 (a float)"})
+	type stop struct{}
+	bad := ""
+	for _, cs := range cases {
+		hints := &Val{K: VNil}
+		if cs.hint != nil {
+			hints = &Val{K: VStruct, Fields: map[string]*Val{fmt.Sprint(mk): cs.hint}}
+		}
+		var got []int64
+		h := &rpf{unroll: 100, env: map[types.Object]*Val{}}
+		h.env[recvObj(p, fd)] = &Val{K: VStruct, Ptr: true, Fields: map[string]*Val{"defaultMargin": vint(13), "encoder": {K: VStruct, Ptr: true, Fields: map[string]*Val{}}}}
+		h.assertHook = func(rr *rpf, ta *ast.TypeAssertExpr, v *Val) (bool, bool) {
+			switch types.ExprString(ta.Type) {
+			case "int":
+				return v.K == VInt, true
+			case "string":
+				return v.K == VStr, true
+			}
+			return false, true
+		}
+		h.callHook = func(rr *rpf, call *ast.CallExpr, callee types.Object) (*Val, bool) {
+			if fn, ok := callee.(*types.Func); ok {
+				switch fn.Name() {
+				case "getSupportedWriteFormats":
+					return &Val{K: VStruct, Fields: map[string]*Val{}}, true
+				case "Contains":
+					return vbool(true), true
+				}
+			}
+			return errCtorHook(rr, call, callee)
+		}
+		h.multiHook = func(call *ast.CallExpr, callee types.Object) ([]*Val, bool) {
+			fn, ok := callee.(*types.Func)
+			if !ok {
+				return nil, false
+			}
+			switch fn.Name() {
+			case "encodeWithHints", "encode":
+				return []*Val{{K: VList, L: []*Val{vbool(true), vbool(false), vbool(true)}}, {K: VNil}}, true
+			case "Atoi":
+				if s := rpfCurrent.expr(call.Args[0]); s.K == VStr {
+					if n, err := strconv.Atoi(s.S); err == nil {
+						return []*Val{vint(int64(n)), {K: VNil}}, true
+					}
+					return []*Val{vint(0), vstr("error")}, true
+				}
+			case "ParseInt":
+				if len(call.Args) == 3 {
+					s, b, w := rpfCurrent.expr(call.Args[0]), rpfCurrent.expr(call.Args[1]), rpfCurrent.expr(call.Args[2])
+					if s.K == VStr && b.K == VInt && w.K == VInt {
+						if n, err := strconv.ParseInt(s.S, int(b.I), int(w.I)); err == nil {
+							return []*Val{vint(n), {K: VNil}}, true
+						}
+						return []*Val{vint(0), vstr("error")}, true
+					}
+				}
+			case "onedWriter_renderResult":
+				for _, a := range call.Args[1:] {
+					v := rpfCurrent.expr(a)
+					if v.K != VInt {
+						rpfFail("the renderer is given a non-constant argument")
+					}
+					got = append(got, v.I)
+				}
+				panic(stop{})
+			}
+			return nil, false
+		}
+		var err error
+		var res []*Val
+		func() {
+			defer func() {
+				if x := recover(); x != nil {
+					if _, ok := x.(stop); ok {
+						return
+					}
+					panic(x)
+				}
+			}()
+			res, err = c.rpfCall(fd, p, []*Val{vstr("A"), vint(1), vint(100), vint(90), hints}, h)
+		}()
+		if err != nil {
+			bad = "?" + cs.desc + ": " + err.Error()
+			break
+		}
+		if cs.want < 0 {
+			if len(got) != 0 || len(res) != 2 || res[1].K == VNil {
+				bad = fmt.Sprintf("%s is not refused (the renderer is given %v)", cs.desc, got)
+				break
+			}
+			continue
+		}
+		if len(got) != 3 {
+			bad = cs.desc + ": the renderer is not reached"
+			break
+		}
+		if got[0] != 100 || got[1] != 90 || got[2] != cs.want {
+			bad = fmt.Sprintf("%s, request 100x90: the renderer is given width %d, height %d and a margin of %d modules; expected 100, 90, %d", cs.desc, got[0], got[1], got[2], cs.want)
+			break
+		}
+	}
+	reportFold(r, c, "R-MARGINHINT", key, fd.Pos(), bad)
 }
